@@ -38,6 +38,13 @@ def wrap(c, kind, vars_):
     return c
 
 
+def wrap_empty(kind):
+    sel = {"entity_x": X, "entity_y": Y}.get(kind)
+    if sel is not None:
+        return ("sq", ("Q", "an", "entity", sel, (), ()))
+    return ("sq", ("Q", "an", "setof", (X, Y), (), ()))
+
+
 def bounds(tier):
     return {"single_var_pairs": 64, "two_var_pairs": len(leaves_xy()) ** 2 if tier == "thorough" else 49,
             "positions": ["condition", "selected variable", "comparison operand", "attribute operand", "the(...) operand",
@@ -88,6 +95,14 @@ def cases(tier, inst):
             yield ("attr_operand", c, op, "left")  # sub.p <op> y.p
             yield ("attr_operand", c, op, "right")
         yield ("pform_arg", c)
+    # --- sub-queries that have NO condition of their own (an(entity(x)), an(set_of([x, y]))): as a condition they are
+    #     simply true for every binding of what they select
+    for j in leaves_xy()[:7]:
+        for kind in ("entity_x", "entity_y", "setof"):
+            for conn in ("and", "or"):
+                for order in ("sub_last", "sub_first"):
+                    yield ("emptysub", j, kind, conn, order)
+        yield ("emptysub2", j)
     # --- a sub-query operand whose variable is ALREADY BOUND when the comparison runs (right of an & / | whose left
     #     side binds it, either a plain condition or another sub-query), and the reverse order
     lefts = [("cmp", "le", A(X, "q"), L(2)), ("cmp", "ne", A(X, "p"), L(1)), ("sq", sub_q(("cmp", "ge", A(X, "q"), L(1))))]
@@ -157,6 +172,16 @@ def queries_of(case):
         n = ("Q", "an", "entity", ("pform", "Item", "DB", (), (("ref", ("sub", sub_q(c))),)), (), (VXY[0],))
         f = ("Q", "an", "entity", Y, (("cmp", "eq", A(Y, "ref"), X),) + ((c,) if c else ()), vxy_decl)
         return n, f, RICH
+    if fam in ("emptysub", "emptysub2"):
+        j = case[1]
+        if fam == "emptysub2":          # an(entity(x)) & an(entity(y)) & join
+            tree = ("and", ("and", wrap_empty("entity_x"), wrap_empty("entity_y")), j)
+        else:
+            _, j, kind, conn, order = case
+            e = wrap_empty(kind)
+            tree = (conn, j, e) if order == "sub_last" else (conn, e, j)
+        n = ("Q", "an", "setof", (X, Y), (tree,), VXY)
+        return n, None, RICH             # the reference semantics reads an empty sub-query as `true`
     if fam == "bound_operand":
         _, c, left, conn, order, pos = case
         s = ("sub", sub_q(c))
@@ -208,13 +233,14 @@ def run_case(case, inst):
         world = build_world(wspec, inst)
         got = evaluate(n, world, inst)
         world2 = build_world(wspec, inst)
-        flat = evaluate(f, world2, inst)
+        f_ = f if f is not None else n
+        flat = evaluate(f_, world2, inst) if f is not None else None
         ref = Q.Ref(world2, inst)
-        sel = f[3] if f[2] == "setof" else (f[3],)
-        sols = ref.solutions(f)
+        sel = f_[3] if f_[2] == "setof" else (f_[3],)
+        sols = ref.solutions(f_)
         exp = [tuple(ref.value(s, env) for s in sel) for env in sols]
         total = 1
-        for v in f[5]:
+        for v in f_[5]:
             total *= len(ref.domain(v))
         restricted = None
         if case[0] == "bound_operand":
@@ -232,7 +258,7 @@ def run_case(case, inst):
         res.update(ok=False, sig=f"{case[0]}:{d}", obs=row_labels(got), exp=row_labels(exp))
         if restricted is not None:
             res["kf_hint"] = {"equals_restricted_reading": diff_rows(got, restricted, count=False) is None}
-    else:
+    elif flat is not None:
         d2 = diff_rows(flat, exp, count=False)
         if d2 is not None:
             res.update(ok=False, sig=f"{case[0]}:flattened-form-{d2}", obs=("flattened", row_labels(flat)), exp=row_labels(exp))
@@ -254,5 +280,6 @@ KF_MODELS = {"operand_restricts_whole_disjunction": _model_restricts_whole_disju
 
 def describe(case, inst):
     n, f, wspec = queries_of(case)
-    return (Q.up_world(wspec, inst) + "\n" + Q.up_query(n, inst) + "\n# flattened: " + Q.up_query(f, inst)
+    return (Q.up_world(wspec, inst) + "\n" + Q.up_query(n, inst) + "\n# flattened: "
+            + (Q.up_query(f, inst) if f is not None else "a sub-query without conditions is `true`")
             + "\n# expected: set(list(q.evaluate())) equal for both forms and equal to the Python oracle")
